@@ -3,7 +3,7 @@
 //! points), all small softmax vectors over an extreme-value alphabet, a Box–Cox parameter lattice
 //! and all (n,k) for the binomial coefficient against a u128 Pascal triangle.
 use crate::common::enumerate::par_words;
-use crate::common::refmath::{c_expm1, U};
+use crate::common::refmath::{c_expm1, c_log1p, U};
 use crate::common::{guard, Run};
 use compute::functions::{binom_coeff, binom_coeff_alt, boxcox, boxcox_shifted, logistic, logit, softmax};
 use rayon::prelude::*;
@@ -115,6 +115,15 @@ fn short(x: &[f64]) -> Vec<f64> {
     x.iter().cloned().take(8).collect()
 }
 
+/// ln q − ln(1−q) through glibc's log/log1p (1−q is exact for q ≥ 1/2)
+fn logit_ref(q: f64) -> f64 {
+    if q >= 0.5 {
+        c_log1p(-(1.0 - q)) - (1.0 - q).ln()
+    } else {
+        q.ln() - c_log1p(-q)
+    }
+}
+
 pub fn run(run: &Run) {
     run.rule("logistic: f32 lattice in ±745 in increasing order (every point thorough, every 16th quick), range, reflection and monotonicity on consecutive points; logistic∘logit on an f32 lattice of [0,1] and logit∘logistic on an f32 lattice of [-700,20], rejection outside; softmax: every vector of length 1..=5 over {-1e4,-745,-1,0,1,709,710,1e4} plus shifts and structured vectors up to length 1000; Box–Cox lattice x × λ (incl. |λ|<1e-8) × shifts; binom_coeff on all 0≤k≤n≤67 and all n≤4000,k≤32 with C(n,k)<2^64 against a u128 Pascal triangle; every case distinct and non-trivial");
     let stride: u32 = if run.thorough() { 1 } else { 16 };
@@ -150,6 +159,15 @@ pub fn run(run: &Run) {
         while b <= end {
             let p = f32::from_bits(b) as f64;
             for q in [p, 1.0 - p] {
+                // the inverse of the logistic function is ln q − ln(1−q): value against an independent evaluation
+                if q > 0.0 && q < 1.0 {
+                    let want = logit_ref(q);
+                    match guard(|| logit(q)) {
+                        Ok(g) if (g - want).abs() <= 1e-13 * want.abs().max(1.0) => {}
+                        Ok(g) => run.violate("logit/value", || format!("logit({:e}) = {:e}, ln q - ln(1-q) = {:e}", q, g, want)),
+                        Err(_) => {}
+                    }
+                }
                 match guard(|| logistic(logit(q))) {
                     Ok(r) => {
                         if !((r - q).abs() <= 4.0 * U) {
@@ -167,6 +185,36 @@ pub fn run(run: &Run) {
         run.oks(n);
         run.nontrivial(n);
     });
+    // towards both ends on a geometric lattice: q = t and q = 1 − t for t = m·10^−k and powers of two down to 2^−53
+    {
+        let mut ts: Vec<f64> = Vec::new();
+        for k in 1..=300 {
+            for &m in &[1.0, 2.5, 7.0] {
+                ts.push(m * 10f64.powi(-k));
+            }
+        }
+        for k in 1..=1074 {
+            ts.push(2f64.powi(-k));
+            ts.push(3.0 * 2f64.powi(-k - 2));
+        }
+        for &t in &ts {
+            for q in [t, 1.0 - t] {
+                if !(q > 0.0 && q < 1.0) {
+                    continue;
+                }
+                run.case();
+                run.tr();
+                run.ok();
+                run.nontrivial(1);
+                let want = logit_ref(q);
+                match guard(|| logit(q)) {
+                    Ok(g) if (g - want).abs() <= 1e-13 * want.abs().max(1.0) => run.regime("logit-value-tails"),
+                    Ok(g) => run.violate("logit/value", || format!("logit({:e}) [1 - q = {:e}] = {:e}, ln q - ln(1-q) = {:e}", q, 1.0 - q, g, want)),
+                    Err(e) => run.violate("logit/panic-in-domain", || format!("logit({:e}) panicked: {}", q, e)),
+                }
+            }
+        }
+    }
     // the other composition: logit(logistic(x)) = x wherever logistic(x) is representable away from
     // 0 and 1 — all the way down the lower tail (logistic(x) ≈ e^x is an ordinary f64 to x = -708),
     // and up to x = 20 (beyond, 1 - logistic(x) is lost to rounding: allowance 8u·e^x)
